@@ -198,6 +198,89 @@ def known_findings(pid):
     return out
 
 
+def _anchor_functions(path, patterns):
+    """{qualname: (first_body_line, last_line)} of the functions in `path` whose qualified name matches a pattern"""
+    import ast, fnmatch
+    out = {}
+    try:
+        with open(path) as fh:
+            tree = ast.parse(fh.read())
+    except Exception:
+        return out
+
+    def walk(node, prefix):
+        for ch in ast.iter_child_nodes(node):
+            if isinstance(ch, (ast.FunctionDef, ast.AsyncFunctionDef)):
+                q = ".".join(prefix + [ch.name])
+                if any(fnmatch.fnmatchcase(q, pat) for pat in patterns) and ch.body:
+                    out[q if q not in out else "%s@%d" % (q, ch.lineno)] = (ch.body[0].lineno, ch.end_lineno)
+            elif isinstance(ch, ast.ClassDef):
+                walk(ch, prefix + [ch.name])
+    walk(tree, [])
+    return out
+
+
+class AnchorCoverage:
+    """statement coverage of the anchored implementation functions while the harness drives the real library"""
+
+    def __init__(self, pid):
+        self.cov, self.files = None, {}
+        try:
+            sys.path.insert(0, os.path.join(VERIF, "harness"))
+            import anchors
+            spec = anchors.ANCHORS.get(pid) or {}
+            for rel, pats in spec.items():
+                path = os.path.realpath(os.path.join(REPO, rel))
+                if os.path.exists(path):
+                    self.files[path] = (rel, pats)
+            if self.files and not os.environ.get("VERIF_NO_ANCHOR_COV"):
+                os.environ.setdefault("COVERAGE_CORE", "sysmon")
+                import coverage
+                self.cov = coverage.Coverage(data_file=None, include=list(self.files), config_file=False)
+        except Exception as e:      # measurement only: never let it break a check
+            self.cov, self.err = None, repr(e)
+
+    def start(self):
+        if self.cov:
+            try:
+                self.cov.start()
+            except Exception:
+                self.cov = None
+
+    def stop(self):
+        if not self.cov:
+            return None
+        try:
+            self.cov.stop()
+            res, tot, hit = {}, 0, 0
+            for path, (rel, pats) in self.files.items():
+                funcs = _anchor_functions(path, pats)
+                try:
+                    _, stmts, _, missing, _ = self.cov.analysis2(path)
+                except Exception:
+                    continue
+                stmts, missing = set(stmts), set(missing)
+                for q, (a, b) in sorted(funcs.items()):
+                    body = [l for l in stmts if a <= l <= b]
+                    if not body:
+                        continue
+                    miss = sorted(l for l in body if l in missing)
+                    tot += len(body)
+                    hit += len(body) - len(miss)
+                    res["%s::%s" % (rel, q)] = {"statements": len(body), "hit": len(body) - len(miss),
+                                                 "missed_lines": miss[:40]}
+            untouched = sorted(k for k, v in res.items() if v["hit"] == 0)
+            return {"functions": len(res), "statements": tot, "hit": hit,
+                    "functions_never_entered": untouched[:60],
+                    "per_function": {k: v for k, v in res.items() if v["hit"] and v["hit"] < v["statements"]},
+                    "fully_covered": sorted(k for k, v in res.items() if v["hit"] == v["statements"])[:200],
+                    "note": "statement coverage (coverage.py, in-process only) of the anchored functions of the real "
+                            "library during this run's correspondence/oracle sweep; a measure of generator quality, "
+                            "not a verdict"}
+        except Exception as e:
+            return {"error": repr(e)}
+
+
 class Ctx:
     def __init__(self, pid, tier, seed):
         self.pid, self.tier, self.seed = pid, tier, seed
@@ -335,16 +418,22 @@ def main(argv=None):
     # 3. correspondence + oracle sweep (search gets 10x budget when an obligation is broken)
     ctx.broken = broken
     ctx.search_mult = 10 if broken else 1
+    acov = AnchorCoverage(pid)
     try:
         import contextlib, io
         sink = io.StringIO()
         esink = io.StringIO()
+        acov.start()
         with contextlib.redirect_stdout(sink), contextlib.redirect_stderr(esink):   # the library prints/warns a lot
             mod.run(ctx)
     except Exception:
         tb = traceback.format_exc()
         ctx.notes.append("harness crashed:\n" + tb[-3000:])
         broken.append(("harness", tb[-800:]))
+    finally:
+        ac = acov.stop()
+        if ac:
+            ctx.extra["anchor_coverage"] = ac
     if os.environ.get("VERIF_DEBUG"):
         for dgr in ctx.corr_disagreements[:5]:
             print("DISAGREE", json.dumps(dgr, default=str))
